@@ -105,7 +105,10 @@ void BinaryFileReader::read_topo_chunk(Decoder &reader)
         return;
     }
 
-    if (!is_valid(header.handle_encoding)) {
+    // IntEncoding::None is a valid *valence* encoding (fixed valence), but handles
+    // always need a real integer encoding: with None nothing would be decoded while
+    // the entities of this chunk are still counted as read.
+    if (!is_valid(header.handle_encoding) || header.handle_encoding == IntEncoding::None) {
         state_ = ReadState::ErrorInvalidEncoding;
         error_msg_ = "TOPO chunk: invalid handle encoding";
         return;
